@@ -214,6 +214,13 @@ func c18Property(t *rapid.T, st *Stats) {
 			}
 			desc.Annotations["org.opencontainers.image.created"] = other
 		}
+		// the fields of a descriptor that live behind a pointer or a slice (a platform entry of a multi-platform index,
+		// embedded data, source URLs): a copy must not share them
+		if rapid.IntRange(0, 3).Draw(t, "deepFields") == 0 {
+			desc.URLs = []string{"https://example.com/a"}
+			desc.Data = []byte("embedded")
+			desc.Platform = &types.Platform{Architecture: "amd64", OS: "linux", OSFeatures: []string{"f1"}, Features: []string{"sse4"}}
+		}
 		opts := []types.IndexOpt{}
 		var kids []types.Descriptor
 		if rapid.IntRange(0, 2).Draw(t, "withChildren") == 0 {
@@ -395,6 +402,21 @@ func c18Property(t *rapid.T, st *Stats) {
 					case 3: // poke shared structure
 						for i := range victim.Manifests {
 							victim.Manifests[i].Size = 999
+							if len(victim.Manifests[i].URLs) > 0 {
+								victim.Manifests[i].URLs[0] = "poked"
+							}
+							if len(victim.Manifests[i].Data) > 0 {
+								victim.Manifests[i].Data[0] = 'X'
+							}
+							if p := victim.Manifests[i].Platform; p != nil {
+								p.Architecture = "poked"
+								if len(p.OSFeatures) > 0 {
+									p.OSFeatures[0] = "poked"
+								}
+								if len(p.Features) > 0 {
+									p.Features[0] = "poked"
+								}
+							}
 							if victim.Manifests[i].Annotations != nil {
 								victim.Manifests[i].Annotations["poke"] = "x"
 								delete(victim.Manifests[i].Annotations, types.AnnotRefName)
